@@ -15,6 +15,7 @@ INVARIANT AtMostOneOpen
 INVARIANT AtMostOneHeld
 INVARIANT SingleAttempt
 INVARIANT NotStuck
+INVARIANT AuthEndsRetries
 INVARIANT AfterCloseNothingHeld
 INVARIANT NoSpontaneousAttemptAfterClose
 POSTCONDITION Accepted
